@@ -3,6 +3,7 @@ package main
 import (
 	"fmt"
 	"go/token"
+	"sort"
 	"strings"
 
 	"golang.org/x/tools/go/ssa"
@@ -563,6 +564,9 @@ func ruleLevelSlots(r *Run, p *Prog, rule, tname, meth, suffix string, levelPara
 		r.Fail(rule, FnName(f)+"/paths", p.Pos(f.Pos()), "cannot enumerate paths")
 		return
 	}
+	if levelSlotsByTable(r, p, rule, f, paths, lc, byVal, suffix, levelParam, wantResult) {
+		return
+	}
 	arms := map[string]bool{}
 	for i, pa := range paths {
 		if pa.Infeasible() {
@@ -661,4 +665,208 @@ func isAllocOfParam(base ssa.Value, f *ssa.Function, pidx int) bool {
 		}
 	}
 	return false
+}
+
+// levelSlotsByTable: the table form of a per-level dispatch — a local array filled with the
+// receiver's slot fields and indexed by an expression of the level (`perLevel[int(lvl)-int(TraceLevel)]`).
+// Every path is replayed once per declared level (and one value below and above them) with the
+// level parameter fixed; the slot consulted is the one the index evaluates to. Returns false when
+// the function has no such table (the switch form is judged by the caller).
+func levelSlotsByTable(r *Run, p *Prog, rule string, f *ssa.Function, paths []Path, lc map[string]int64, byVal map[int64]string, suffix string, levelParam int, wantResult bool) bool {
+	if levelParam >= len(f.Params) {
+		return false
+	}
+	lvl := f.Params[levelParam]
+	slots := map[*ssa.Alloc]map[int64]string{}
+	eachInstr(f, func(b *ssa.BasicBlock, i int, in ssa.Instruction) {
+		st, ok := in.(*ssa.Store)
+		if !ok {
+			return
+		}
+		ia, ok := st.Addr.(*ssa.IndexAddr)
+		if !ok {
+			return
+		}
+		al, ok := ia.X.(*ssa.Alloc)
+		if !ok {
+			return
+		}
+		k, isC := constInt(ia.Index)
+		fv, base := loadedField(st.Val)
+		if !isC || fv == nil || !(isParam(base, f, 0) || isAllocOfParam(base, f, 0)) {
+			return
+		}
+		if slots[al] == nil {
+			slots[al] = map[int64]string{}
+		}
+		slots[al][k] = fname(fv)
+	})
+	if len(slots) != 1 {
+		return false
+	}
+	var table *ssa.Alloc
+	for al := range slots {
+		table = al
+	}
+	if len(slots[table]) < 3 {
+		return false
+	}
+	// the table is only written by those constant-index stores
+	for _, ref := range referrersOf(table) {
+		if ia, ok := ref.(*ssa.IndexAddr); ok {
+			for _, r2 := range referrersOf(ia) {
+				if st, ok := r2.(*ssa.Store); ok && st.Addr == ssa.Value(ia) {
+					if _, isC := constInt(ia.Index); !isC {
+						r.Ob(rule, FnName(f)+"/table", p.Pos(st.Pos()), false, true, "the per-level table is written at a computed index")
+						return true
+					}
+				}
+			}
+		}
+	}
+	slotOf := func(v ssa.Value, e *miniEnv) (string, bool) {
+		ld, ok := v.(*ssa.UnOp)
+		if !ok || ld.Op != token.MUL {
+			return "", false
+		}
+		ia, ok := ld.X.(*ssa.IndexAddr)
+		if !ok || ia.X != ssa.Value(table) {
+			return "", false
+		}
+		k, ok := e.eval(ia.Index, 0)
+		if !ok {
+			return "", false
+		}
+		n, ok := slots[table][k]
+		return n, ok
+	}
+	var vals []int64
+	lo, hi := int64(127), int64(-128)
+	for _, v := range lc {
+		vals = append(vals, v)
+		if v < lo {
+			lo = v
+		}
+		if v > hi {
+			hi = v
+		}
+	}
+	vals = append(vals, lo-1, hi+1)
+	sort.Slice(vals, func(i, j int) bool { return vals[i] < vals[j] })
+	arms := map[string]bool{}
+	for _, v := range vals {
+		cname := byVal[v]
+		if cname == "" {
+			cname = fmt.Sprintf("level(%d)", v)
+		}
+		want1 := strings.TrimSuffix(cname, "Level") + suffix
+		want2 := cname + suffix
+		match := func(n string) bool { return n == want1 || n == want2 }
+		hasSlot := false
+		for _, n := range slots[table] {
+			if match(n) {
+				hasSlot = true
+			}
+		}
+		nFeasible, bad := 0, ""
+		for _, pa := range paths {
+			var env *miniEnv
+			var called []string
+			okFwd, undecided := true, false
+			var callVals []ssa.Value
+			feasible := pa.WalkEvalSeeded(map[ssa.Value]int64{lvl: v}, func(bi int, in ssa.Instruction, e *miniEnv) {
+				env = e
+				c, ok := in.(*ssa.Call)
+				if !ok || !c.Call.IsInvoke() {
+					return
+				}
+				n, ok := slotOf(c.Call.Value, e)
+				if !ok {
+					undecided = true
+					return
+				}
+				called = append(called, n)
+				callVals = append(callVals, c.Call.Value)
+				for k, a := range c.Call.Args {
+					if k+1 >= len(f.Params) || a != ssa.Value(f.Params[k+1]) {
+						okFwd = false
+					}
+				}
+			})
+			if !feasible || pa.Infeasible() {
+				continue
+			}
+			nFeasible++
+			ret, isRet := pa.Exit.(*ssa.Return)
+			if !isRet {
+				bad = "a path for this level ends in a panic"
+				continue
+			}
+			if undecided {
+				bad = "a call on this path is not made on an entry of the per-level table"
+				continue
+			}
+			// nil tests of table entries on this path
+			var nonNil, isNil []string
+			for _, c := range pa.Cmps() {
+				x, y := pa.Resolve(c.X), pa.Resolve(c.Y)
+				if isNilConst(x) {
+					x, y = y, x
+				}
+				if !isNilConst(y) || env == nil {
+					continue
+				}
+				if n, ok := slotOf(x, env); ok {
+					if c.Op == token.NEQ {
+						nonNil = append(nonNil, n)
+					} else if c.Op == token.EQL {
+						isNil = append(isNil, n)
+					}
+				}
+			}
+			switch {
+			case len(called) == 0:
+				okP := !hasSlot || (len(isNil) == 1 && match(isNil[0]))
+				if wantResult && len(ret.Results) == 1 {
+					if b, isB := constBool(pa.Resolve(ret.Results[0])); !isB || !b {
+						okP = false
+					}
+				}
+				if !okP {
+					bad = fmt.Sprintf("a path for this level consults no slot but does not follow from `slot == nil` (nil tests: %v) or does not admit", isNil)
+				}
+			case len(called) == 1:
+				okP := hasSlot && match(called[0]) && okFwd && len(nonNil) == 1 && nonNil[0] == called[0]
+				if wantResult && len(ret.Results) == 1 {
+					res := pa.Resolve(ret.Results[0])
+					c, isC := res.(*ssa.Call)
+					if !isC || c.Call.Value != callVals[0] {
+						okP = false
+					}
+				}
+				if okP {
+					arms[cname] = true
+				} else {
+					bad = fmt.Sprintf("this level consults slot %s (nil-checked: %v)", called[0], nonNil)
+				}
+			default:
+				bad = fmt.Sprintf("this level consults %v", called)
+			}
+		}
+		ok := bad == "" && nFeasible > 0
+		d := fmt.Sprintf("%s (%d): %d feasible path(s); ", cname, v, nFeasible)
+		if ok && hasSlot {
+			d += "consults exactly the slot named after the level, nil-checked, with the unmodified parameters, and returns its answer; a nil slot admits"
+		} else if ok {
+			d += "no slot for this level: nothing consulted, admitted"
+		} else if nFeasible == 0 {
+			d += "no feasible path found (undecided, fail closed)"
+		} else {
+			d += "level slot mismatch: " + bad
+		}
+		r.Ob(rule, fmt.Sprintf("%s/level=%s", FnName(f), cname), p.Pos(f.Pos()), ok, true, d)
+	}
+	nSlots := len(slots[table])
+	r.Ob(rule, FnName(f)+"/arms", p.Pos(f.Pos()), len(arms) == nSlots && nSlots >= 5, true, fmt.Sprintf("table form: %d slots in the per-level table, %d of them reached by the level they are named after", nSlots, len(arms)))
+	return true
 }
